@@ -402,6 +402,8 @@ class FakeGenerator(Fake):
 class GeneratorFactory(Fake):
     """stands in for `np.random` where the code only calls default_rng(seed): hands out tagged FakeGenerators"""
 
+    Generator = None  # (set per instance) the real class, for isinstance / annotations
+
     def __init__(self, ch, real_np, menus, prefix="rng"):
         self.ch, self.np, self.menus, self.prefix = ch, real_np, menus, prefix
         self.made = []
@@ -411,3 +413,54 @@ class GeneratorFactory(Fake):
         g = FakeGenerator(self.ch, self.np, self.menus, tag="%s%d" % (self.prefix, len(self.made)), seed=seed)
         self.made.append(g)
         return g
+
+
+# ---------------------------------------------------------------------------------------------
+# seam validation: bind the fakes to the random API the code really uses
+# ---------------------------------------------------------------------------------------------
+class RecordingProxy:
+    """wraps a REAL random source; records which attributes the code under test reaches"""
+
+    def __init__(self, real, log, prefix=""):
+        self.__dict__["_real"] = real
+        self.__dict__["_log"] = log
+        self.__dict__["_prefix"] = prefix
+
+    def __getattr__(self, name):
+        self._log.add(self._prefix + name)
+        v = getattr(self._real, name)
+        if name in ("default_rng", "RandomState"):
+            log, pre = self._log, self._prefix + name + "()."
+
+            def make(*a, **k):
+                return RecordingProxy(v(*a, **k), log, pre)
+
+            return make
+        return v
+
+
+def validate_seam(body, patches, fakes):
+    """run `body()` once with REAL random sources wrapped in recorders and check that every API it reaches is modelled.
+
+    patches: list of (module, name, real_object, kind) with kind in {"module", "np"}: "np" wraps real numpy's .random
+    fakes:   {recorded-prefix: fake class}
+    returns (sorted list of recorded calls); raises UnownedRandomness when a call is not modelled."""
+    import contextlib
+
+    log = set()
+    with contextlib.ExitStack() as st:
+        for module, name, real, kind in patches:
+            if kind == "np":
+                st.enter_context(patched(module, **{name: NumpyShim(real, RecordingProxy(real.random, log, "np.random."))}))
+            else:
+                st.enter_context(patched(module, **{name: RecordingProxy(real, log, name + ".")}))
+        body()
+    missing = []
+    for call in sorted(log):
+        prefix, _, meth = call.rpartition(".")
+        cls = fakes.get(prefix + ".")
+        if cls is None or not (hasattr(cls, meth)):
+            missing.append(call)
+    if missing:
+        raise UnownedRandomness("the real code reaches random APIs the harness does not model: %r" % missing)
+    return sorted(log)
